@@ -70,6 +70,7 @@ type c10WS struct {
 	PlantDirs []string
 	// DupImporter: directory of the local module with a file importing the duplicated path ("" = nobody)
 	DupImporter, DupImporterKind string
+	DupPath                      string
 }
 
 func (f *c10File) text(msgOf map[string][2]string) string {
@@ -210,18 +211,26 @@ func c10Gen(c *core.C, errorCase bool) *c10WS {
 		case "duplicate":
 			a, b := ws.Locals[0], ws.Locals[len(ws.Locals)-1]
 			ws.PlantDirs = []string{a.Dir, b.Dir}
-			a.Files = append(a.Files, &c10File{Path: "dup/dup.proto", Pkg: "dup", Msg: "Dup", Marker: "one"})
-			b.Files = append(b.Files, &c10File{Path: "dup/dup.proto", Pkg: "dup", Msg: "Dup", Marker: "two"})
+			dupPath, dupPkg, dupMsg := "dup/dup.proto", "dup", "Dup"
+			if (c.Idx/9)%2 == 1 {
+				// the duplicated path is one that buf also bundles (a well-known type): two modules shipping it is
+				// as ambiguous as any other duplicate — the bundled copy must not quietly settle it
+				dupPath, dupPkg, dupMsg = "google/protobuf/timestamp.proto", "google.protobuf", "Timestamp"
+				c.Count("duplicate_wkt_path_cases", 1)
+			}
+			ws.DupPath = dupPath
+			a.Files = append(a.Files, &c10File{Path: dupPath, Pkg: dupPkg, Msg: dupMsg, Marker: "one"})
+			b.Files = append(b.Files, &c10File{Path: dupPath, Pkg: dupPkg, Msg: dupMsg, Marker: "two"})
 			// who imports the ambiguous path: nobody, a file of the module that has its own copy (the other
 			// owner is not otherwise one of its dependencies: a is the first local), or a third module
 			switch (c.Idx / 3) % 3 {
 			case 1:
-				a.Files[0].Imports = dedup(append(a.Files[0].Imports, "dup/dup.proto"))
+				a.Files[0].Imports = dedup(append(a.Files[0].Imports, dupPath))
 				ws.DupImporter, ws.DupImporterKind = a.Dir, "owner"
 			case 2:
 				if len(ws.Locals) > 2 {
 					m := ws.Locals[1+r.IntN(len(ws.Locals)-2)]
-					m.Files[len(m.Files)-1].Imports = dedup(append(m.Files[len(m.Files)-1].Imports, "dup/dup.proto"))
+					m.Files[len(m.Files)-1].Imports = dedup(append(m.Files[len(m.Files)-1].Imports, dupPath))
 					ws.DupImporter, ws.DupImporterKind = m.Dir, "third"
 					ws.PlantDirs = append(ws.PlantDirs, m.Dir)
 				}
@@ -748,7 +757,7 @@ func c10ExpectError(c *core.C, ws *c10WS, w bufworkspace.Workspace, err error, k
 			c.Count("duplicate_resolving_operations", 1)
 			var de *bufmodule.DuplicateProtoPathError
 			if derr == nil {
-				c.Violation("ambiguity-resolved-arbitrarily", key+" op="+op+" importer="+ws.DupImporterKind, fmt.Sprintf("%s succeeded although a file of %s imports dup/dup.proto, which two modules provide", op, ws.DupImporter), map[string]any{"ws": ws})
+				c.Violation("ambiguity-resolved-arbitrarily", key+" op="+op+" importer="+ws.DupImporterKind, fmt.Sprintf("%s succeeded although a file of %s imports %s, which two modules provide", op, ws.DupImporter, ws.DupPath), map[string]any{"ws": ws})
 			} else if !errors.As(derr, &de) {
 				c.Violation("wrong-error-type", key+" op="+op, fmt.Sprintf("%s: planted duplicate produced an error of another kind: %v", op, derr), nil)
 			}
@@ -1095,7 +1104,7 @@ func init() {
 			return 240 + 90
 		},
 		Run:      c10Run,
-		Required: []string{"module_deps_checked", "module_deps_nonempty", "indirect_deps_seen", "remote_commit_choices_checked", "image_files_checked", "typed_errors_matched", "duplicate_resolving_operations", "lsfiles_vs_build", "dep_graphs_checked", "file_ref_targets_checked"},
+		Required: []string{"module_deps_checked", "module_deps_nonempty", "indirect_deps_seen", "remote_commit_choices_checked", "image_files_checked", "typed_errors_matched", "duplicate_resolving_operations", "duplicate_wkt_path_cases", "lsfiles_vs_build", "dep_graphs_checked", "file_ref_targets_checked"},
 	})
 }
 
